@@ -972,6 +972,41 @@ pub fn cmd_replay(args: &[String]) {
         libc::mmap(std::ptr::null_mut(), 4096, libc::PROT_READ | libc::PROT_WRITE, libc::MAP_SHARED | libc::MAP_ANONYMOUS, -1, 0) as *mut u32
     };
     let tmp = format!("{}.child.{}", args[1], first);
+    // the behaviours run in forked children: this process uses the allocator once before it forks, so that whatever the
+    // library initialises lazily (statics, process ids, pools) is inherited by the children rather than created in them
+    { use dryoc::types::ResizableBytes; let mut warm = dryoc::protected::HeapBytes::default(); warm.resize(64, 1); drop(warm); }
+    // a scripted sequence the model does not generate: an explicit zeroize() on a live heap container, the container reused for
+    // another secret, then a growth that gives the old block back - judged by the release observer like every other release
+    if first == 0 {
+        let pid = unsafe { libc::fork() };
+        if pid == 0 {
+            use dryoc::types::{MutBytes, ResizableBytes, Bytes};
+            use zeroize::Zeroize;
+            install_observers();
+            let mut bad: Vec<Value> = vec![];
+            for (len, grow) in [(100usize, 20000usize), (4097, 40000), (24, 9000)] {
+                let n0 = rels().len();
+                let mut h = dryoc::protected::HeapBytes::default();
+                h.resize(len, 0);
+                for b in h.as_mut_slice().iter_mut() { *b = 0xA5; }
+                h.zeroize();
+                if h.as_slice().len() < len { h.resize(len, 0); }
+                for b in h.as_mut_slice().iter_mut() { *b = 0x5A; }
+                h.resize(grow, 0);
+                drop(h);
+                for (_, size, nz) in rels().iter().skip(n0) { if *nz != 0 { bad.push(json!({"key": "released memory not wiped: non-zero bytes reach the allocator by resize", "step": 0, "op": ["zeroize, reuse, grow"], "info": {"size": size, "nonzero_bytes": nz, "len": len}})); } }
+            }
+            if !bad.is_empty() { let mut o = std::fs::File::create(&tmp).unwrap(); writeln!(o, "{}", serde_json::to_string(&bad).unwrap()).unwrap(); }
+            unsafe { libc::_exit(0) };
+        }
+        let mut st = 0;
+        unsafe { libc::waitpid(pid, &mut st, 0) };
+        rep.evaluations += 3;
+        if let Ok(txt) = std::fs::read_to_string(&tmp) {
+            if let Ok(v) = serde_json::from_str::<Vec<Value>>(txt.trim()) { for f in v { rep.fail(f["key"].as_str().unwrap_or("?"), json!({"case": [{"op": ["scripted: zeroize, reuse, grow", 99]}], "divergence": f})); } }
+            std::fs::remove_file(&tmp).ok();
+        }
+    }
     for (idx, line) in f.lines().enumerate() {
         if idx % stride != first { continue; }
         let line = line.unwrap();
